@@ -52,6 +52,27 @@ Proof.
   split; [discriminate|vm_compute; reflexivity].
 Qed.
 
+Lemma loopvar_facts : sem_facts loopvar_sem demo_aug loopvar.
+Proof.
+  split.
+  - intros a Ha args v _ Hs. typed_cases Ha Hs.
+  - intros op e t Ha. cbn in Ha. destruct Ha.
+Qed.
+
+Lemma loopvar_refuted :
+  exists c trP trC,
+    transl loopvar = Some c /\ sem_facts loopvar_sem demo_aug loopvar /\
+    pprog_exec loopvar_sem demo_aug 40 0 loopvar = Some trP /\
+    cprog_exec loopvar_sem demo_aug (info_of loopvar) 40 0 false c = Some trC /\
+    trP <> trC /\ guard_ok loopvar = false.
+Proof.
+  eexists. exists [EvSer (VI 0); EvSer (VI 2); EvSer (VI 1); EvSer (VI 3); EvSer (VI 2); EvSer (VI 4); EvSer (VI 3); EvSer (VI 5)],
+                  [EvSer (VI 0); EvSer (VI 2); EvSer (VI 3); EvSer (VI 5)].
+  split; [vm_compute; reflexivity|]. split; [exact loopvar_facts|].
+  split; [vm_compute; reflexivity|]. split; [vm_compute; reflexivity|].
+  split; [discriminate|vm_compute; reflexivity].
+Qed.
+
 Lemma retype_facts : sem_facts retype_sem demo_aug retype.
 Proof.
   split.
